@@ -155,9 +155,9 @@ func directed(gin, gout, bufsize, size uint64, n int) input {
 }
 
 func gen(r *hx.Rand, tier string) []json.RawMessage {
-	nh, nr := 260, 110
+	nh, nr := 240, 90
 	if tier == "thorough" {
-		nh, nr = 5000, 2500
+		nh, nr = 3000, 1200
 	}
 	out := []json.RawMessage{
 		hx.J(directed(64, 64, 128, 100, 40)),  // DESIGN §1: overwrites destination bytes 100..127
